@@ -288,6 +288,40 @@ def varGet (vars : Option VarValues) (x : List Nat) : PyVal :=
     | some v => v
     | none => .undefined
 
+/-- `FragmentVariableValues` (experimental fragment arguments) as far as input coercion reads it:
+the names the fragment declares (keys of `.sources` — declared with a value, with a default, or
+without any value) and the coerced values (`.coerced`, only for those that have one). -/
+structure FragVarValues where
+  sources : List (List Nat)
+  coerced : List (List Nat × PyVal)
+  deriving Repr, Inhabited
+
+/-- `fragment_variable_values.coerced.get(name, Undefined)` -/
+def fragLookup (fv : FragVarValues) (k : List Nat) : PyVal :=
+  match PyVal.dictGet fv.coerced k with
+  | some v => v
+  | none => .undefined
+
+/-- The scoping rule of `get_coerced_variable_value` / `get_scoped_variable_values`:
+```
+if fragment_variable_values and var_name in fragment_variable_values.sources:
+    return fragment_variable_values.coerced.get(var_name, Undefined)
+if variable_values: return variable_values.coerced.get(var_name, Undefined)
+return Undefined
+```
+A name the fragment declares shadows the operation variable of the same name *even when it has
+no value*. Expressed as one effective variable map, so that `coerceLiteral` / `validateLiteral`
+(which only ever look variables up, and test "static" = neither map given) apply unchanged. -/
+def scopeVars (vars : Option VarValues) (fvars : Option FragVarValues) : Option VarValues :=
+  match fvars with
+  | none => vars
+  | some fv =>
+    let own := fv.sources.map fun k => (k, fragLookup fv k)
+    let outer := match vars with
+      | some vv => vv.coerced.filter fun kv => !fv.sources.contains kv.1
+      | none => []
+    some ⟨match vars with | some vv => vv.sources | none => [], own ++ outer⟩
+
 def Lit.asVar : Lit → Option (List Nat)
   | .var x => some x
   | _ => none
